@@ -130,13 +130,13 @@ def run_arith(ctx):
     h = os.path.join(VERIF, 'cbmc', 'ring_arith.c')
     gb = os.path.join(ctx.scratch, 'ring_arith.gb')
     gotocc(ctx, h, gb)
-    res, fails, log = cbmc(ctx, gb, 'ring arithmetic at IMB_MAX_JOBS=256 (queue_sz, ADV_JOBS, ADV_N_JOBS, get_queue_sz_end, GET_NEXT_BURST fill)', unwind=130, timeout=900)
+    res, fails, log = cbmc(ctx, gb, 'ring arithmetic at IMB_MAX_JOBS=256 (queue_sz, queue_sz_remaining, ADV_JOBS, ADV_N_JOBS, get_queue_sz_end, JOBS)', unwind=4, timeout=900)
     if res == 'violated':
         for fid, desc in fails:
             ctx.violation('ring_arith:' + fid.split('.')[-1], desc + ' (CBMC trace is the replay)', [log, h])
     gbw = os.path.join(ctx.scratch, 'ring_arith_w.gb')
     gotocc(ctx, h, gbw, defs=['-DWITNESS'])
-    cbmc(ctx, gbw, 'WITNESS ring arithmetic', unwind=130, timeout=900, expect='violated', trace=False)
+    cbmc(ctx, gbw, 'WITNESS ring arithmetic', unwind=4, timeout=900, expect='violated', trace=False)
 
 
 def run_entry_checks(ctx, which):
